@@ -1,9 +1,37 @@
 (** C11 — The molecular hash is a canonical identity for the molecule.
-    Property theorems only; each is closed by [exact] of a lemma from Proofs/Hash.v / Proofs/HashPrep.v.
+    Property theorems only; each is closed by [exact] of a lemma from Proofs/Hash.v / Proofs/HashPrep.v / Proofs/HashMol.v.
     Model: Model/Hash.v ([canon] = the text Molecule.get_hash feeds to SHA-1, [prep_arr]/[prep_scalar] = float_prep,
-    [canon_bonds] = the bond canonicalisation of from_arrays).  SHA-1 is a parameter assumed injective. *)
+    [canon_bonds]/[validate_bonds] = the bond canonicalisation of from_arrays).  SHA-1 is a parameter assumed injective.
+
+    CLAUSE MAP (statement / quantifier of C11 in properties.jsonl  ->  theorems here; "corr" = only the differential
+    correspondence and the oracle on the implementation, no theorem)
+    1. same hash and == exactly when the ten listed fields agree after the rounding
+         -> C11_canon_complete, C11_canon_injective (+ _without_wf_refuted: the hypothesis is needed), C11_hash_eq_iff_agree
+            (for any injective digest; __eq__ = hash equality comes from the translator's template of __eq__).
+            "the rounding" is float_prep as it is; against the documented 1e-8 it fails in the zero-flush zone:
+            C11_sensitive_in_flush_zone_refuted (known finding C11-zero-flip-threshold).
+    2. independent of how the molecule was built or stored
+         kwargs vs dict vs unset/default-filled fields  -> C11_independent_of_route
+         raw input geometry vs the geometry stored by the constructor (float_prep at construction) and re-validation
+                                                        -> C11_prerounding_invisible, C11_prep_idempotent
+         encodings / text / files: the value reaches the getters within noise -> C11_noise_insensitive_molecule covers the
+            hash side; that each route delivers such values is corr (12 routes) and C07/C10.
+    3. independent of fields outside the list            -> C11_independent_of_non_hash_fields
+    4. sub-rounding noise, sign of zero, |x| < 5e-9      -> C11_noise_insensitive, C11_signed_zero_insensitive, C11_tiny_is_zero
+            (one number), C11_noise_insensitive_molecule (every coordinate at once, at the level of the hashed text),
+            C11_rounding_respects_value; through numpy's binary64 algorithm rint(fl(x*10^n)): C11_np_around_exact, _far,
+            C11_np_around_noise_insensitive (for every fl with three IEEE-754 properties, hypotheses), C11_prep_arr64_agrees; and for the
+            executable fl64 with no hypothesis left: C11_fl64_error, C11_noise_insensitive_binary64.
+    5. order and orientation of the bond list             -> C11_bond_order_invariant, C11_bond_canon_idempotent,
+            C11_bond_listing_validated_alike (outcome of the validator incl. ValidationError), C11_bond_listing_hash_invariant
+    6. changes when a listed field changes by more than its rounding unit
+         -> C11_sensitive, _scalar (one number), C11_sensitive_text, C11_sensitive_coordinate, C11_sensitive_mass,
+            C11_sensitive_charge, C11_sensitive_fragment_charge, C11_sensitive_discrete (symbol, multiplicity, ghost flag,
+            fragment boundary, fragment multiplicity, bond order); zone bounds C11_flush_zone_geometry_bound / _mass_ / _charge_.
+    Not proved: SHA-1 collision freedom (parameter); that the machine's multiplication is fl64 (IEEE-754; the two are compared
+    on every run, ties and near-ties included); monotonicity / exactness on half-integers of fl64 (only its error bound is). *)
 From Coq Require Import ZArith QArith Qabs List String Bool Permutation Lia Lqa.
-Require Import QV.Common.Outcome QV.Common.HFRound QV.Common.HFBin64 QV.Common.HFHash QV.Gen.HashConsts QV.Model.Hash QV.Proofs.Hash QV.Proofs.HashPrep.
+Require Import QV.Common.Outcome QV.Common.HFRound QV.Common.HFBin64 QV.Common.HFHash QV.Gen.HashConsts QV.Model.Hash QV.Proofs.Hash QV.Proofs.HashPrep QV.Proofs.HashMol QV.Proofs.HashFl64.
 Import ListNotations.
 Open Scope Z_scope.
 
@@ -127,6 +155,77 @@ Proof. exact bond_order_invariant. Qed.
 Theorem C11_bond_canon_idempotent : forall l, canon_bonds (canon_bonds l) = canon_bonds l.
 Proof. exact canon_bonds_idempotent. Qed.
 
+(** ---- molecule-level companions ---- *)
+(** The prepared value depends on the value of the number, not on the fraction that denotes it. *)
+Theorem C11_rounding_respects_value : forall n q q', 0 <= n -> (q == q')%Q ->
+  round_n n q = round_n n q' /\ prep_arr n (FQ q) = prep_arr n (FQ q').
+Proof. intros n q q' Hn E. split; [apply round_n_Qeq; exact E|apply prep_arr_Qeq; assumption]. Qed.
+
+(** Noise <= 1e-10 on coordinates away from a rounding boundary, zeros of either sign and values below half a rounding
+    unit, on every coordinate at once: the hashed text is the same. *)
+Theorem C11_noise_insensitive_molecule : forall to_mass m g',
+  Forall2 (same_after_noise geometry_noise noise_eps) (geometry m) g' ->
+  canon to_mass (with_geometry m g') = canon to_mass m.
+Proof. exact canon_noise_insensitive. Qed.
+
+(** The constructor stores float_prep(geometry, 8) and get_hash prepares it again: same text as for the raw input. *)
+Theorem C11_prerounding_invisible : forall to_mass m, canon to_mass (with_geometry m (stored_geometry m)) = canon to_mass m.
+Proof. exact canon_prerounding_invisible. Qed.
+
+(** A mass, the total charge, a fragment charge changed by more than the rounding unit changes the text. *)
+Theorem C11_sensitive_mass : forall to_mass m m' pre post x y, wf m -> wf m' ->
+  masses to_mass m = pre ++ FQ x :: post -> masses to_mass m' = pre ++ FQ y :: post ->
+  (1 < Qabs (scaled mass_noise x - scaled mass_noise y))%Q ->
+  below_flush mass_noise (round_n mass_noise x) = false \/ below_flush mass_noise (round_n mass_noise y) = false ->
+  canon to_mass m <> canon to_mass m'.
+Proof. exact canon_sensitive_mass. Qed.
+Theorem C11_sensitive_charge : forall to_mass m m' x y, wf m -> wf m' ->
+  mcharge m = FQ x -> mcharge m' = FQ y -> (1 < Qabs (scaled charge_noise x - scaled charge_noise y))%Q ->
+  canon to_mass m <> canon to_mass m'.
+Proof. exact canon_sensitive_charge. Qed.
+Theorem C11_sensitive_fragment_charge : forall to_mass m m' pre post x y, wf m -> wf m' ->
+  fcharges m = pre ++ FQ x :: post -> fcharges m' = pre ++ FQ y :: post ->
+  (1 < Qabs (scaled charge_noise x - scaled charge_noise y))%Q ->
+  below_flush charge_noise (round_n charge_noise x) = false \/ below_flush charge_noise (round_n charge_noise y) = false ->
+  canon to_mass m <> canon to_mass m'.
+Proof. exact canon_sensitive_fragment_charge. Qed.
+Theorem C11_flush_zone_mass_bound : forall x, (2 # 100000 <= Qabs x)%Q -> below_flush mass_noise (round_n mass_noise x) = false.
+Proof. exact outside_zone_mass. Qed.
+Theorem C11_flush_zone_charge_bound : forall x, (5 # 10000 <= Qabs x)%Q -> below_flush charge_noise (round_n charge_noise x) = false.
+Proof. exact outside_zone_charge. Qed.
+
+(** The validator's outcome — the stored list or ValidationError — and hence the hashed text do not depend on the listing. *)
+Theorem C11_bond_listing_validated_alike : forall l l' bs, Permutation l (flip_by bs l') -> validate_bonds l = validate_bonds l'.
+Proof. exact validate_bonds_listing_invariant. Qed.
+Theorem C11_bond_listing_hash_invariant : forall to_mass m l l' bs s s', Permutation l (flip_by bs l') ->
+  validate_bonds l = Ok s -> validate_bonds l' = Ok s' ->
+  canon to_mass (with_connectivity m (Some s)) = canon to_mass (with_connectivity m (Some s')).
+Proof. exact canon_bond_listing_invariant. Qed.
+
+(** Noise through numpy's binary64 algorithm: for every rounding fl of the product that is monotone, exact on half-integers
+    up to B and errs by at most u on [-B, B] (IEEE-754 round-to-nearest: B = 2^40, u = 2^-14), a value away from every
+    boundary by eps + u*10^-n and the same value with noise <= eps both give the exact half-even rounding. *)
+Theorem C11_np_around_noise_insensitive : forall (fl : Q -> Q) (B : Z) (u : Q),
+  (forall a b, (a <= b)%Q -> (fl a <= fl b)%Q) ->
+  (forall j : Z, Z.abs j <= B -> (fl (inject_Z j + (1 # 2)) == inject_Z j + (1 # 2))%Q) ->
+  (forall s, (Qabs s <= inject_Z B)%Q -> (Qabs (fl s - s) <= u)%Q) ->
+  forall n, 0 <= n -> forall x d eps, (0 <= eps)%Q -> (0 <= u)%Q -> (Qabs d <= eps)%Q ->
+  far_from_boundary n (eps + u / inject_Z (pow10 n))%Q x ->
+  (Qabs (x * inject_Z (pow10 n)) <= inject_Z (B - 2))%Q -> (Qabs ((x + d) * inject_Z (pow10 n)) <= inject_Z (B - 2))%Q ->
+  rint (fl ((x + d) * inject_Z (pow10 n))%Q) = round_n n x /\ rint (fl (x * inject_Z (pow10 n))%Q) = round_n n x.
+Proof. exact np_around_noise_insensitive. Qed.
+
+(** The executable binary64 rounding fl64 (compared with the machine's multiplication on every run) errs by at most 2^-13 on
+    [-2^40, 2^40]; so, with no hypothesis on the rounding left, float_prep computed by numpy's algorithm rint(fl64(x*10^n)) does
+    not see noise <= 1e-10 on a value 1e-10 + 2^-13*10^-n away from every boundary, and equals the exact model there. *)
+Theorem C11_fl64_error : forall s, (Qabs s <= inject_Z (2 ^ 40))%Q -> (Qabs (fl64 s - s) <= 1 # 8192)%Q.
+Proof. exact fl64_err. Qed.
+Theorem C11_noise_insensitive_binary64 : forall n x d, 0 <= n ->
+  (Qabs d <= noise_eps)%Q -> far_from_boundary n (noise_eps + u64 / inject_Z (pow10 n))%Q x ->
+  (Qabs (x * inject_Z (pow10 n)) <= inject_Z (2 ^ 40))%Q -> (Qabs ((x + d) * inject_Z (pow10 n)) <= inject_Z (2 ^ 40))%Q ->
+  prep_arr64 n (FQ (x + d)) = prep_arr64 n (FQ x) /\ prep_arr64 n (FQ x) = prep_arr n (FQ x).
+Proof. exact prep_arr64_noise_insensitive. Qed.
+
 (** Non-vacuity.  Water cation with two bonds listed in two ways, a -0.0, a sub-unit coordinate, defaulted and
     explicit fields. *)
 Definition bd (a b n : Z) (d : positive) : bond := (a, b, Qmake n d).
@@ -180,6 +279,47 @@ Proof.
   repeat split; vm_compute; reflexivity.
 Qed.
 
+(* the molecule-level noise relation on the example's geometry: a -0.0 against +0.0, 1e-10 noise on 0.123456789, -1e-9 against 4e-9 *)
+Example C11_ex_noise_molecule :
+  Forall2 (same_after_noise geometry_noise noise_eps)
+          [FNegZero; FQ (123456789 # 1000000000); FQ (-1 # 1000000000)]
+          [FQ 0; FQ (1234567891 # 10000000000); FQ (4 # 1000000000)].
+Proof.
+  constructor; [apply san_zero_l; vm_compute; reflexivity|].
+  constructor; [apply san_noise; [vm_compute; discriminate|apply C11_ex_noise]|].
+  constructor; [apply san_tiny; vm_compute; reflexivity|constructor].
+Qed.
+(* the hypotheses of C11_np_around_noise_insensitive are jointly satisfiable (exact arithmetic: u = 0) *)
+Example C11_ex_fl_hypotheses :
+  (forall a b, (a <= b)%Q -> ((fun s : Q => s) a <= (fun s : Q => s) b)%Q)
+  /\ (forall j : Z, Z.abs j <= 2 ^ 40 -> ((fun s : Q => s) (inject_Z j + (1 # 2)) == inject_Z j + (1 # 2))%Q)
+  /\ (forall s, (Qabs s <= inject_Z (2 ^ 40))%Q -> (Qabs ((fun s : Q => s) s - s) <= 0)%Q).
+Proof.
+  split; [intros a b H; exact H|]. split; [intros j _; reflexivity|].
+  intros s _. assert (E : (s - s == 0)%Q) by ring. rewrite E. apply Qle_refl.
+Qed.
+Example C11_ex_bond_error : validate_bonds [bd 0 1 11 2] = Err Validation /\ validate_bonds [bd 1 0 11 2] = Err Validation
+  /\ validate_bonds [bd 1 0 1 1; bd 2 1 3 2] = Ok [bd 0 1 1 1; bd 1 2 3 2].
+Proof. repeat split; vm_compute; reflexivity. Qed.
+
+Example C11_ex_noise64 :
+  far_from_boundary 8 (noise_eps + u64 / inject_Z (pow10 8))%Q (123456789 # 1000000000)
+  /\ (Qabs ((123456789 # 1000000000) * inject_Z (pow10 8)) <= inject_Z (2 ^ 40))%Q
+  /\ prep_arr64 8 (FQ ((123456789 # 1000000000) + (1 # 10000000000))) = 12345679.
+Proof.
+  split; [|split; vm_compute; [discriminate|reflexivity]].
+  intros j. unfold scaled. change (inject_Z (pow10 8)) with (100000000 # 1)%Q.
+  assert (M : ((noise_eps + u64 / (100000000 # 1)) * (100000000 # 1) <= 2 # 100)%Q) by (vm_compute; discriminate).
+  assert (E : ((123456789 # 1000000000) * (100000000 # 1) - (inject_Z j + (1 # 2)) == inject_Z (12345678 - j) + (4 # 10))%Q).
+  { unfold Zminus. rewrite inject_Z_plus, inject_Z_opp. change (inject_Z 12345678) with (12345678 # 1)%Q. field. }
+  rewrite E. set (K := inject_Z (12345678 - j)). set (MM := ((noise_eps + u64 / (100000000 # 1)) * (100000000 # 1))%Q) in *.
+  destruct (Z_lt_le_dec (12345678 - j) 0) as [L|L].
+  - assert (LK : (K <= -1 # 1)%Q). { change (-1 # 1)%Q with (inject_Z (-1)). unfold K. rewrite <- Zle_Qle. lia. }
+    apply Qabs_case; intros; lra.
+  - assert (LK : (0 <= K)%Q). { change 0%Q with (inject_Z 0). unfold K. rewrite <- Zle_Qle. exact L. }
+    apply Qabs_case; intros; lra.
+Qed.
+
 Print Assumptions C11_canon_complete.
 Print Assumptions C11_canon_injective.
 Print Assumptions C11_canon_injective_without_wf_refuted.
@@ -202,3 +342,16 @@ Print Assumptions C11_sensitive_coordinate.
 Print Assumptions C11_sensitive_discrete.
 Print Assumptions C11_bond_order_invariant.
 Print Assumptions C11_bond_canon_idempotent.
+Print Assumptions C11_rounding_respects_value.
+Print Assumptions C11_noise_insensitive_molecule.
+Print Assumptions C11_prerounding_invisible.
+Print Assumptions C11_sensitive_mass.
+Print Assumptions C11_sensitive_charge.
+Print Assumptions C11_sensitive_fragment_charge.
+Print Assumptions C11_flush_zone_mass_bound.
+Print Assumptions C11_flush_zone_charge_bound.
+Print Assumptions C11_bond_listing_validated_alike.
+Print Assumptions C11_bond_listing_hash_invariant.
+Print Assumptions C11_np_around_noise_insensitive.
+Print Assumptions C11_fl64_error.
+Print Assumptions C11_noise_insensitive_binary64.
